@@ -1,3 +1,4 @@
+import Pocket.Lemmas.FromSourceKeys
 import Pocket.Lemmas.KeysTag
 import Pocket.Lemmas.FromSourceConsts
 import Pocket.Lemmas.FindComplete
@@ -251,5 +252,28 @@ example : let x : SEv := ⟨8, ⟨List.replicate 32 1, List.replicate 32 2, [], 
 
 /-- every `PADLEN` of the key builders in `lmdb/mod.rs` is the length the model pads (or cuts) tag values to -/
 theorem index_padding_from_source (v : Bytes) : ∀ p ∈ Src.c_lmdb_PADLEN, (pad182 v).length = p := Pocket.index_padding_from_source v
+
+/-- the byte keys the theorems above are about are the keys `key_*_index` build today: the statements of the six builders in
+`lmdb/mod.rs`, translated on every run, produce exactly the model's keys -/
+theorem keys_from_source (author value id : Bytes) (kind letter t : Nat) :
+    Src.keyCi t id = keyCi t id ∧ Src.keyAc author t id = keyAc author t id ∧ Src.keyAkc author kind t id = keyAkc author kind t id ∧
+    Src.keyTc letter value t id = keyTc letter value t id ∧ Src.keyAtc author letter value t id = keyAtc author letter value t id ∧
+    Src.keyKtc kind letter value t id = keyKtc kind letter value t id := Pocket.keys_from_source author value id kind letter t
+
+/-- ... and the range each `*_iter` reads today is the one the scan theorems assume: from the key at `until` with the all-zero id
+to the key at `since` with the all-ones id, both ends included -/
+theorem iter_bounds_from_source (author value : Bytes) (kind letter since «until» : Nat) :
+    (Src.ciIterLo since «until» = keyCi «until» zeros32 ∧ Src.ciIterHi since «until» = keyCi since ffs32 ∧ Src.ciIterInclusive = (true, true)) ∧
+    (Src.acIterLo author since «until» = keyAc author «until» zeros32 ∧ Src.acIterHi author since «until» = keyAc author since ffs32 ∧
+      Src.acIterInclusive = (true, true)) ∧
+    (Src.akcIterLo author kind since «until» = keyAkc author kind «until» zeros32 ∧ Src.akcIterHi author kind since «until» = keyAkc author kind since ffs32 ∧
+      Src.akcIterInclusive = (true, true)) ∧
+    (Src.tcIterLo letter value since «until» = keyTc letter value «until» zeros32 ∧ Src.tcIterHi letter value since «until» = keyTc letter value since ffs32 ∧
+      Src.tcIterInclusive = (true, true)) ∧
+    (Src.atcIterLo author letter value since «until» = keyAtc author letter value «until» zeros32 ∧
+      Src.atcIterHi author letter value since «until» = keyAtc author letter value since ffs32 ∧ Src.atcIterInclusive = (true, true)) ∧
+    (Src.ktcIterLo kind letter value since «until» = keyKtc kind letter value «until» zeros32 ∧
+      Src.ktcIterHi kind letter value since «until» = keyKtc kind letter value since ffs32 ∧ Src.ktcIterInclusive = (true, true)) :=
+  Pocket.iter_bounds_from_source author value kind letter since «until»
 
 end Pocket.C05
